@@ -307,7 +307,7 @@ def check(repo, res, tier):
     # starts from the unchanged initial state and no counter / buffer kept on the instance alters it)
     from ..rules import stepx as X
     res.rule("R-WALK", "two consecutive runs on one model object (one random stream) are both the walk defined by the model: a run leaves nothing behind that changes the next")
-    nw = X.check_walks(repo, res, rule="R-PURE")
+    nw = X.check_walks(repo, res, rule="R-PURE", tier=tier)
     res.floor("walk scenarios interpreted (two runs each)", nw, 15)
     X.check_update(repo, res, rule="R-PURE")
     jf = repo.resolve_method(cls, "_jump")
